@@ -101,8 +101,17 @@ func factsReplay() {
 			boolFact(g, "registerAtomic", atomic, "registerRandom: `_, used := UsedRandom[r]` and `UsedRandom[r] = …` inside one usedRandomM.Lock() section")
 			boolFact(g, "storeUnconditional", evs[iStore].depth == 0, "the first-sighting time is (re)written on every presentation")
 			rhs := assignRHS(fn, `^sta\.UsedRandom\[r\]$`)
-			boolFact(g, "storesUnixSeconds", rhs != nil && regexp.MustCompile(`^sta\.WorldState\.Now\(\)(\.UTC\(\))?\.Unix\(\)$`).MatchString(show(rhs)),
-				"stored value is WorldState.Now().Unix()")
+			// the stored value: whole seconds of a clock reading — its own (`sta.WorldState.Now().Unix()`) or the one the caller
+			// made for the whole presentation and passed in as the time.Time parameter (`now.Unix()`)
+			ownReading := rhs != nil && regexp.MustCompile(`^sta\.WorldState\.Now\(\)(\.UTC\(\))?\.Unix\(\)$`).MatchString(show(rhs))
+			paramReading := false
+			if rhs != nil && fn.Type.Params != nil && len(fn.Type.Params.List) == 2 && len(fn.Type.Params.List[1].Names) == 1 &&
+				show(fn.Type.Params.List[1].Type) == "time.Time" {
+				pn := fn.Type.Params.List[1].Names[0].Name
+				paramReading = show(rhs) == pn+".Unix()" && count(evs, "call", `WorldState\.Now\(`) == 0
+			}
+			boolFact(g, "storesUnixSeconds", ownReading || paramReading, "stored value is the whole seconds of a clock reading (its own, or the caller's, passed in)")
+			boolFact(g, "registerUsesCallersReading", paramReading, "registerRandom stores the clock reading its caller passes in and reads no clock itself")
 			iRet := idx(evs, 0, "return", `^return used$`)
 			boolFact(g, "returnsUsed", iRet > iStore, "registerRandom returns the looked-up flag")
 		}
@@ -131,10 +140,22 @@ func factsReplay() {
 	boolFact(g, "replayReturnsBeforeDecrypt", okReplay, "a used random returns ErrReplay before decryptClientInfo")
 
 	call := evs[iReg].node.(*ast.CallExpr)
-	if len(call.Args) != 1 {
-		unrec(g, "keyMask31", "registerRandom takes one argument")
+	if len(call.Args) != 1 && len(call.Args) != 2 {
+		unrec(g, "keyMask31", "registerRandom takes the value and, optionally, the presentation's clock reading")
 		return
 	}
+	// ONE clock reading per presentation: `now := sta.WorldState.Now()` once, handed to registerRandom and (as now / now.UTC())
+	// to decryptClientInfo, and no other reading in AuthFirstPacket
+	oneReading := false
+	if len(call.Args) == 2 {
+		if id, isId := call.Args[1].(*ast.Ident); isId {
+			iNow := idx(evs, 0, "assign", `^`+id.Name+` := sta\.WorldState\.Now\(\)$`)
+			dargs := callArgs(fn, `^decryptClientInfo$`)
+			oneReading = iNow >= 0 && iNow < iReg && count(evs, "call", `WorldState\.Now\(`) == 1 && len(dargs) == 2 &&
+				(show(dargs[1]) == id.Name || show(dargs[1]) == id.Name+".UTC()")
+		}
+	}
+	boolFact(g, "oneClockReadingPerPresentation", oneReading, "AuthFirstPacket reads the clock once and uses that reading for the replay-cache entry and for the timestamp window")
 	arg := show(call.Args[0])
 	const src = "fragments.randPubKey"
 	mask := int64(255)
